@@ -115,63 +115,70 @@ Definition rq_sub_chunks (nb : Z) (cs : list rqchunk) : Z :=
 
 Inductive rq_res := RqOk (complete : bool) | RqErrLimit | RqErrMIDLimit | RqPanic.
 
-(* ---------- findCompleteUnorderedChunkSet ---------- *)
-Fixpoint rq_find_scan (l : list rqchunk) (i : nat) (start : option nat) (n : nat) (lastT : Z)
-  : option (nat * nat) :=
+(* ---------- findCompleteUnorderedChunkSet ----------
+   The Go loop keeps (startIdx, nChunks, lastTSN) over the slice; here the same scan carries the
+   elements themselves: [pre] = everything before the current candidate run (reversed), [cur] = the
+   candidate run started at the last B chunk (reversed; [] when startIdx < 0; its head carries
+   lastTSN).  Result: (chunks before the run, the run, chunks after it). *)
+Fixpoint rq_find_scan (l pre cur : list rqchunk) : option (list rqchunk * list rqchunk * list rqchunk) :=
   match l with
   | [] => None
   | c :: t =>
       if rqc_beg c then
-        if rqc_end c then Some (i, 1%nat)
-        else rq_find_scan t (S i) (Some i) 1%nat (rqc_tsn c)
+        if rqc_end c then Some (rev (cur ++ pre), [c], t)
+        else rq_find_scan t (cur ++ pre) [c]
       else
-        match start with
-        | None => rq_find_scan t (S i) None n lastT
-        | Some s =>
-            if negb (rqc_tsn c =? wrap32 (lastT + 1)) then rq_find_scan t (S i) None n lastT
-            else if rqc_end c then Some (s, S n)
-            else rq_find_scan t (S i) (Some s) (S n) (rqc_tsn c)
+        match cur with
+        | [] => rq_find_scan t (c :: pre) []
+        | d :: _ =>
+            if negb (rqc_tsn c =? wrap32 (rqc_tsn d + 1)) then rq_find_scan t (c :: cur ++ pre) []
+            else if rqc_end c then Some (rev pre, rev (c :: cur), t)
+            else rq_find_scan t pre (c :: cur)
         end
   end.
 
 (* result: None = nothing found; Some (Some (set, rest)); Some None = chunks[0] out of range *)
 Definition rq_find_complete (uc : list rqchunk) : option (option (rqset * list rqchunk)) :=
-  match rq_find_scan uc 0%nat None 0%nat 0 with
+  match rq_find_scan uc [] [] with
   | None => None
-  | Some (s, n) =>
-      let chunks := firstn n (skipn s uc) in
-      let rest := firstn s uc ++ skipn (s + n) uc in
+  | Some (before, chunks, after) =>
       match chunks with
       | [] => Some None
-      | c0 :: _ => Some (Some (mkRqSet 0 (rqc_ppi c0) chunks, rest))
+      | c0 :: _ => Some (Some (mkRqSet 0 (rqc_ppi c0) chunks, before ++ after))
       end
   end.
 
 (* ---------- helpers on lists of sets ---------- *)
-Fixpoint rq_update_nth {A : Type} (i : nat) (f : A -> A) (l : list A) : list A :=
-  match l, i with
-  | [], _ => []
-  | x :: t, O => f x :: t
-  | x :: t, S j => x :: rq_update_nth j f t
-  end.
-
-(* loop over r.ordered looking for "set.ssn == ssn && set.chunks[0].isFragmented()" *)
-Fixpoint rq_find_frag (ssn : Z) (l : list rqset) (i : nat) : option (option nat) :=
+(* loop over r.ordered looking for the first set with "set.ssn == ssn && set.chunks[0].isFragmented()";
+   the list is returned split around that set.  None = chunks[0] out of range (panic). *)
+Fixpoint rq_split_frag (ssn : Z) (l : list rqset) : option (option (list rqset * rqset * list rqset)) :=
   match l with
   | [] => Some None
   | s :: t =>
+      let continue :=
+        match rq_split_frag ssn t with
+        | None => None
+        | Some None => Some None
+        | Some (Some (b, x, a)) => Some (Some (s :: b, x, a))
+        end in
       if rqs_key s =? ssn then
         match rqs_chunks s with
-        | [] => None                                   (* index out of range *)
-        | c0 :: _ => if rqc_fragmented c0 then Some (Some i) else rq_find_frag ssn t (S i)
+        | [] => None
+        | c0 :: _ => if rqc_fragmented c0 then Some (Some ([], s, t)) else continue
         end
-      else rq_find_frag ssn t (S i)
+      else continue
   end.
 
-Fixpoint rq_find_key (k : Z) (l : list rqset) (i : nat) : option nat :=
+(* first set with the given key (the orderedMIDMap lookup, see the header) *)
+Fixpoint rq_split_key (k : Z) (l : list rqset) : option (list rqset * rqset * list rqset) :=
   match l with
   | [] => None
-  | s :: t => if rqs_key s =? k then Some i else rq_find_key k t (S i)
+  | s :: t =>
+      if rqs_key s =? k then Some ([], s, t)
+      else match rq_split_key k t with
+           | None => None
+           | Some (b, x, a) => Some (s :: b, x, a)
+           end
   end.
 
 Definition rq_set_q (q : rq) (ordered unordered : list rqset) (uchunks : list rqchunk)
@@ -204,14 +211,11 @@ Definition rq_push_chunk_to_set (c : rqchunk) (s : rqset) : rqset :=
 Definition rq_push_ordered (q : rq) (c : rqchunk) : rq * rq_res :=
   if sna16LT (rqc_ssn c) (rq_nextSSN q) then (q, RqOk false)
   else
-    match (if rqc_fragmented c then rq_find_frag (rqc_ssn c) (rq_ordered q) 0%nat else Some None) with
+    match (if rqc_fragmented c then rq_split_frag (rqc_ssn c) (rq_ordered q) else Some None) with
     | None => (q, RqPanic)
     | Some found =>
         let dup := match found with
-                   | Some i => match nth_error (rq_ordered q) i with
-                               | Some s => rq_has_tsn (rqc_tsn c) (rqs_chunks s)
-                               | None => false
-                               end
+                   | Some (_, s, _) => rq_has_tsn (rqc_tsn c) (rqs_chunks s)
                    | None => false
                    end in
         if dup then (q, RqOk false)
@@ -219,14 +223,10 @@ Definition rq_push_ordered (q : rq) (c : rqchunk) : rq * rq_res :=
         else
           let nb := rq_add_bytes (rq_nbytes q) (rqc_len c) in
           match found with
-          | Some i =>
-              let ordered := rq_update_nth i (rq_push_chunk_to_set c) (rq_ordered q) in
-              let complete := match nth_error ordered i with
-                              | Some s => rqs_complete (rqs_chunks s)
-                              | None => false
-                              end in
-              (rq_set_q q ordered (rq_unordered q) (rq_uchunks q) (rq_orderedMID q) (rq_unorderedMID q)
-                        (rq_umidmap q) nb, RqOk complete)
+          | Some (before, s, after) =>
+              let s' := rq_push_chunk_to_set c s in
+              (rq_set_q q (before ++ s' :: after) (rq_unordered q) (rq_uchunks q) (rq_orderedMID q)
+                        (rq_unorderedMID q) (rq_umidmap q) nb, RqOk (rqs_complete (rqs_chunks s')))
           | None =>
               (* new set appended, r.ordered sorted by SSN, then the chunk is pushed into the set *)
               let cset := mkRqSet (rqc_ssn c) (rqc_ppi c) [c] in
@@ -268,18 +268,14 @@ Definition rq_insert_by_mid (a : list rqset) (cset : rqset) : list rqset :=
 Definition rq_push_ordered_idata (q : rq) (c : rqchunk) : rq * rq_res :=
   if sna32LT (rqc_mid c) (rq_nextMID q) then (q, RqOk false)
   else
-    match rq_find_key (rqc_mid c) (rq_orderedMID q) 0%nat with
-    | Some i =>
-        match nth_error (rq_orderedMID q) i with
-        | None => (q, RqPanic)
-        | Some s =>
-            let '(s', complete, accepted) := rqm_push_and_check s c in
-            if accepted then
-              (rq_set_q q (rq_ordered q) (rq_unordered q) (rq_uchunks q)
-                        (rq_update_nth i (fun _ => s') (rq_orderedMID q)) (rq_unorderedMID q) (rq_umidmap q)
-                        (rq_add_bytes (rq_nbytes q) (rqc_len c)), RqOk complete)
-            else (q, RqOk false)
-        end
+    match rq_split_key (rqc_mid c) (rq_orderedMID q) with
+    | Some (before, s, after) =>
+        let '(s', complete, accepted) := rqm_push_and_check s c in
+        if accepted then
+          (rq_set_q q (rq_ordered q) (rq_unordered q) (rq_uchunks q)
+                    (before ++ s' :: after) (rq_unorderedMID q) (rq_umidmap q)
+                    (rq_add_bytes (rq_nbytes q) (rqc_len c)), RqOk complete)
+        else (q, RqOk false)
     | None =>
         if rq_limit_reached q (Z.of_nat (length (rq_orderedMID q))) then (q, RqErrMIDLimit)
         else
